@@ -1,4 +1,5 @@
 import CookModel.Lemmas.GroupConserve
+import CookModel.Lemmas.GroupAudit
 import CookModel.Props.C09
 /-
   C10  Grouping and listing ingredients conserves quantities.
@@ -359,6 +360,100 @@ theorem C10_cookware_conserves (vs : List (Value Rat)) :
     intro w hw
     rw [groupedValueAddAll_sum hw vs hg]; simp only [sumBy_nil]; grind
   exact ⟨g, hg, h _ (vEnd_additive false), h _ (vEnd_additive true),
+    valueTexts_perm (fun t => h _ (vText_additive t))⟩
+
+/-! ## audit additions (notes/audit-C10.md): every order of merging, every order of recipes,
+    several recipes, cookware with its references -/
+
+/-- `merge` in either direction gives the same totals and texts: `a.merge(b)` and `b.merge(a)` hold the
+    same, whatever the iteration orders of the hash maps involved (the one `merge` iterates with, the
+    one the result is read with). -/
+theorem C10_merge_commutes {c : Converter Rat} (hc : c.Sound) (ord ord' o1 o2 : MapOrder Rat)
+    (hord : ord.IsPerm) (hord' : ord'.IsPerm) (ho1 : o1.IsPerm) (ho2 : o2.IsPerm)
+    (g h : GroupedQuantity Rat) (cls : QClass) (hlin : LinearClass c cls) :
+    Holds c cls ((merge ord c g h).iter o1) ((merge ord' c h g).iter o2) := by
+  apply holds_of_weights hc hlin
+  intro w hw
+  rw [gsum_iter w o1 ho1, gsum_iter w o2 ho2, merge_gsum hw.additive ord hord,
+    merge_gsum hw.additive ord' hord']
+  grind
+
+/-- "all orders of merging": any number of groups merged into `g` one after the other (`mergeAll`)
+    hold what `g` and all of them held, and the result does not depend on the order in which they are
+    merged nor on any iteration order. -/
+theorem C10_merge_order_irrelevant {c : Converter Rat} (hc : c.Sound) (ord ord' o1 o2 : MapOrder Rat)
+    (hord : ord.IsPerm) (hord' : ord'.IsPerm) (ho1 : o1.IsPerm) (ho2 : o2.IsPerm)
+    (g : GroupedQuantity Rat) (hs hs' : List (GroupedQuantity Rat)) (hp : hs.Perm hs')
+    (cls : QClass) (hlin : LinearClass c cls) :
+    Holds c cls ((mergeAll ord c g hs).iter o1) (g.iter o1 ++ hs.flatMap (fun h => h.iter o1)) ∧
+    Holds c cls ((mergeAll ord c g hs).iter o1) ((mergeAll ord' c g hs').iter o2) := by
+  constructor
+  · apply holds_of_weights hc hlin
+    intro w hw
+    rw [gsum_iter w o1 ho1, audit_mergeAll_gsum hw.additive ord hord, sumBy_append, gsum_iter w o1 ho1,
+      sumBy_flatMap]
+    congr 1
+    exact sumBy_congr _ (fun h _ => (gsum_iter w o1 ho1 h).symm)
+  · apply holds_of_weights hc hlin
+    intro w hw
+    rw [gsum_iter w o1 ho1, gsum_iter w o2 ho2, audit_mergeAll_gsum hw.additive ord hord,
+      audit_mergeAll_gsum hw.additive ord' hord', sumBy_perm _ hp]
+
+/-- "all sequences of recipes", any order: the recipes added in two different orders (and with
+    different hash orders) give lists whose entries hold the same, name by name. -/
+theorem C10_list_order_irrelevant {c : Converter Rat} (hc : c.Sound) (ord ord' : MapOrder Rat)
+    (hord : ord.IsPerm) (hord' : ord'.IsPerm) (rs rs' : List (ScaledRecipe Rat)) (hp : rs.Perm rs')
+    (hr : ∀ r ∈ rs, RefsInRange r.ingredients) (m : IngredientList Rat)
+    (cls : QClass) (hlin : LinearClass c cls) :
+    ∃ m1 m2, addRecipes ord c m rs = some m1 ∧ addRecipes ord' c m rs' = some m2 ∧
+      ∀ name, Holds c cls (entryQuantities ord m1 name) (entryQuantities ord' m2 name) := by
+  obtain ⟨m1, h1⟩ := addRecipes_total (c := c) ord rs m hr
+  obtain ⟨m2, h2⟩ := addRecipes_total (c := c) ord' rs' m (fun r h => hr r (hp.mem_iff.mpr h))
+  refine ⟨m1, m2, h1, h2, fun name => holds_of_weights hc hlin ?_⟩
+  intro w hw
+  rw [sumBy_entryQuantities w ord hord, sumBy_entryQuantities w ord' hord',
+    audit_addRecipes_perm_entryW hw.additive hw.fitInvariant ord ord' hord hord' rs rs' hp m m1 m2 h1 h2]
+
+/-- `C10_listed_names` for a sequence of recipes: after any number of `add_recipe` calls the names of
+    the list are the names it had plus the display names of the listed definitions of the recipes —
+    a hidden ingredient, a reference, an intermediate reference of ANY of the recipes never makes an
+    entry. -/
+theorem C10_listed_names_all {c : Converter Rat} (ord : MapOrder Rat) (rs : List (ScaledRecipe Rat))
+    (m m' : IngredientList Rat) (h : addRecipes ord c m rs = some m') (name : Str) :
+    (m'.get? name).isSome = true ↔
+      (m.get? name).isSome = true ∨
+      ∃ r ∈ rs, ∃ i ∈ r.ingredients, i.relation.isDefinition = true ∧
+        i.modifiers.shouldBeListed = true ∧ i.displayName = name :=
+  audit_addRecipes_names ord rs m m' h (fun r a b hab nm => C10_listed_names ord r a b hab nm) name
+
+/-- `Cookware::group_amounts` (the cookware mirror of `C10_group_conserves`): with the
+    `referenced_from` indices in range neither the index nor the `expect` panic is reached, and the
+    grouped value holds exactly the amount of the item and those of its references — numeric total (both
+    ends) and texts. -/
+theorem C10_cookware_group_conserves (all : List (Cookware (Value Rat))) (i : Cookware (Value Rat))
+    (hin : ∀ j ∈ i.relation.referencedFrom, j < all.length) :
+    ∃ g, groupAmounts all i = some g ∧
+      sumBy (vEnd false) g = sumBy (vEnd false) (i.quantity.toList ++ amountsAt all i.relation.referencedFrom) ∧
+      sumBy (vEnd true) g = sumBy (vEnd true) (i.quantity.toList ++ amountsAt all i.relation.referencedFrom) ∧
+      (valueTexts g).Perm (valueTexts (i.quantity.toList ++ amountsAt all i.relation.referencedFrom)) := by
+  obtain ⟨g, hg, h1, h2, h3⟩ :=
+    C10_cookware_conserves (i.quantity.toList ++ amountsAt all i.relation.referencedFrom)
+  refine ⟨g, ?_, h1, h2, h3⟩
+  unfold groupAmounts
+  rw [audit_allAmounts_inRange hin]
+  exact hg
+
+/-- `GroupedValue::merge`: the `expect` never fires and the result holds what both held. -/
+theorem C10_cookware_merge_conserves (g other : List (Value Rat)) :
+    ∃ r, groupedValueMerge g other = some r ∧
+      sumBy (vEnd false) r = sumBy (vEnd false) (g ++ other) ∧
+      sumBy (vEnd true) r = sumBy (vEnd true) (g ++ other) ∧
+      (valueTexts r).Perm (valueTexts (g ++ other)) := by
+  obtain ⟨r, hr⟩ := groupedValueAddAll_some other g
+  have h : ∀ w, VAdditive w → sumBy w r = sumBy w (g ++ other) := by
+    intro w hw
+    rw [groupedValueAddAll_sum hw other hr, sumBy_append]
+  exact ⟨r, hr, h _ (vEnd_additive false), h _ (vEnd_additive true),
     valueTexts_perm (fun t => h _ (vText_additive t))⟩
 
 /-! ## witnesses and non-vacuity -/
